@@ -228,6 +228,9 @@ func Expr(n *N) string {
 		return "[" + strings.Join(as, ", ") + "]"
 	case "range":
 		return Expr(n.C[0]) + "..." + Expr(n.C[1])
+	case "paren":
+		// redundant parentheses (C12 edits); transparent for evaluation
+		return "(" + Expr(n.C[0]) + ")"
 	case "ifx":
 		return "(if " + Expr(n.C[0]) + " then " + Expr(n.C[1]) + " else " + Expr(n.C[2]) + ")"
 	}
